@@ -224,6 +224,8 @@ def exec_case(case, facts, src=None):
         sig = (fault["class"], fault["kind"], fault.get("table", "-"), pos, base_opts["country"], site, exc, res["rc"], tuple(core.fs_trace(res)))
         signatures.append((repr(sig), bool(changed)))
         stats["cfg:" + fault["class"]] = stats.get("cfg:" + fault["class"], 0) + 1
+        stats["kind:%s/%s" % (fault["class"], fault["kind"])] = stats.get("kind:%s/%s" % (fault["class"], fault["kind"]), 0) + 1
+        stats["country:" + base_opts["country"]] = stats.get("country:" + base_opts["country"], 0) + 1
         if changed:
             stats["fault:" + fault["class"]] = stats.get("fault:" + fault["class"], 0) + 1
         stats["site:%s:%s" % (site, exc)] = stats.get("site:%s:%s" % (site, exc), 0) + 1
